@@ -2,3 +2,4 @@
 import UF.Driver.Ops.GroupB
 import UF.Props.C01
 import UF.Props.C02
+import UF.Props.C15
